@@ -107,6 +107,7 @@ type StreamM struct {
 	CapWhy     string
 
 	FinWUChecked bool
+	Mismatch     string // first response body mismatch seen on this stream
 }
 
 // Model is the client-side monitor of one connection.
@@ -811,20 +812,13 @@ func (m *Model) recvData(ev *Event) {
 			"DATA of %d bytes on stream %d: %d bytes received but the stream window only ever allowed %d (initial window at most %d + %d of WINDOW_UPDATE)",
 			L, s.ID, s.Recv, m.maxInit()+s.WUSent, m.maxInit(), s.WUSent)
 	}
-	if !m.H.RespEqual(s.Token, off, ev.Data) {
+	if s.Mismatch == "" && !m.H.RespEqual(s.Token, off, ev.Data) {
 		for i, b := range ev.Data {
 			if want := m.H.RespByte(s.Token, off+int64(i)); b != want {
-				// a frame that was being written while the stream was reset is
-				// still a frame of this stream: its payload must be the handler's
-				shape := ""
-				switch {
-				case s.ClientRst:
-					shape = ":frame-in-flight-at-client-rst"
-				case s.SrvRst:
-					shape = ":after-server-rst"
-				}
-				m.viol(ev.Seq, "outbound:content-mismatch"+shape,
-					"stream %d: response body byte %d is %#x, the handler wrote %#x there (frame of %d bytes at offset %d)", s.ID, off+int64(i), b, want, len(ev.Data), off)
+				// reported by Finish, once it is known whether the stream was
+				// reset while this frame was being written
+				s.Mismatch = fmt.Sprintf("stream %d: response body byte %d is %#x, the handler wrote %#x there (DATA frame of %d bytes at offset %d, log #%d)",
+					s.ID, off+int64(i), b, want, len(ev.Data), off, ev.Seq)
 				break
 			}
 		}
@@ -978,6 +972,19 @@ type EndFacts struct {
 // Finish runs the checks that need the whole connection.
 func (m *Model) Finish(f EndFacts) {
 	m.FinishExpectations()
+	for _, s := range m.order {
+		if s.Mismatch == "" {
+			continue
+		}
+		// a frame that was being written while the stream was reset is still a
+		// frame of this stream: its payload must be the handler's bytes
+		if s.ClientRst || s.SrvRst || s.SrvRstMaybe {
+			m.viol(-1, "outbound:content-mismatch:frame-in-flight-at-stream-reset", "%s; the stream was reset right after (client RST_STREAM sent: %v, server RST_STREAM received: %v)",
+				s.Mismatch, s.ClientRst, s.SrvRst || s.SrvRstMaybe)
+		} else {
+			m.viol(-1, "outbound:content-mismatch", "%s", s.Mismatch)
+		}
+	}
 	toks := append([]int(nil), f.AllTokens...)
 	sort.Ints(toks)
 	var consumedAll int64
